@@ -36,6 +36,30 @@ def spec_unique(tier):
         rand_execs=0 if tier == "quick" else 200)
 
 
+SH_OPS = ["then_inline", "then_exec", "subscribe", "share", "copy_drop", "ready", "get", "get_const"]
+
+
+def spec_shared(tier):
+    grid = [{"O1": a, "weak": "1"} for a in SH_OPS] + [{"O1": a, "prod": "err"} for a in ("then_inline", "share", "get")]
+    pairs = [(a, b) for i, a in enumerate(SH_OPS) for b in SH_OPS[i:]]
+    if tier == "quick":
+        # pairs that exercise every cross-kind interaction once; the rest in the thorough tier
+        keep = {("then_inline", "subscribe"), ("then_inline", "ready"), ("then_exec", "share"), ("share", "share"),
+                ("share", "get"), ("share", "get_const"), ("copy_drop", "share"), ("subscribe", "get"), ("ready", "get"),
+                ("then_inline", "then_inline"), ("share", "ready"), ("get", "get")}
+        pairs = [p for p in pairs if p in keep]
+    grid += [{"O1": a, "O2": b} for a, b in pairs]
+    return ConcSpec(
+        name="SharedCore", scenario="sh", grid=grid,
+        inv_props=dict(OWN_INVS, **dict(RACE_INVS, RefCountSane="C03")), primary="C06",
+        mc_cfgs=[("SharedCore_MC.cfg", 8, 600, "SharedCore: fulfiller + 2 observers x 8 observer operations, all interleavings")],
+        paths_cfg="SharedCore_paths.cfg",
+        dfs_max=3000, preempt=2 if tier == "quick" else 3,
+        rand_execs=0 if tier == "quick" else 300,
+        rand_grid=[{"O1": "share", "O2": "get", "O3": "then_inline"}, {"O1": "ready", "O2": "share", "O3": "subscribe"},
+                   {"O1": "then_exec", "O2": "get_const", "O3": "copy_drop"}] if tier != "quick" else [])
+
+
 # ------------------------------------------------------------------------------------------------ checks
 
 @check("C01")
@@ -48,9 +72,17 @@ def c01(rep, tier, seed):
     ]
 
 
+@check("C06")
+def c06(rep, tier, seed):
+    """SharedFuture: every observer sees the one value once, never before it exists (SharedCore.tla)"""
+    run_conc(rep, spec_shared(tier), tier, seed, {"C06"})
+    rep.assumptions += ["observers perform one observer operation each and then drop their copy; 1-2 observers exhaustively "
+                        "(preemption-bounded DFS for pairs in the quick tier), 3 observers by random schedules (thorough)"]
+
+
 def all_conc_specs(tier):
     """every concurrent specification that carries ownership ghost state and a MemModel instance"""
-    return [spec_unique(tier)]
+    return [spec_unique(tier), spec_shared(tier)]
 
 
 @check("C03")
